@@ -112,6 +112,16 @@ class Config:
     def key(self):
         return (self.lang, self.switches, self.limits, self.orient, self.cast_numbers)
 
+    def family_index(self):
+        """limits 'F:<i>' = program i of the hand-built family (mc/progfam.py) instead of the generator"""
+        if self.limits.startswith('F:'):
+            return int(self.limits[2:])
+        return None
+
+    def env_key(self):
+        lim = 'F' if self.limits.startswith('F:') else self.limits
+        return (self.lang, self.switches, lim, self.orient, self.cast_numbers)
+
     def to_json(self):
         return {'lang': self.lang, 'switches': list(self.switches), 'limits': self.limits,
                 'orient': self.orient, 'cast_numbers': self.cast_numbers}
@@ -129,7 +139,7 @@ class Config:
 def configure(config):
     """Install a configuration through the REAL src.args (flag -> cfg mapping is explored)."""
     setup_env()
-    if _env['config'] == config.key():
+    if _env['config'] == config.env_key():
         return
     utils = _env['utils']
     cfg = _env['cfg']
@@ -140,7 +150,7 @@ def configure(config):
     R.__dict__.pop('WORDS', None)
     R.INITIAL_WORDS = set(_env['all_words'])
     R.WORDS = set(_env['all_words'])
-    md, mintl, maxtl = LIMITS[config.limits]
+    md, mintl, maxtl = LIMITS['S' if config.family_index() is not None else config.limits]
     argv = ['hephaestus', '--language', config.lang, '--max-depth', str(md),
             '--iterations', '1', '--name', 'verif', '--bugs', '/nonexistent']
     for on, flag in zip(config.switches, SWITCH_FLAGS):
@@ -159,7 +169,7 @@ def configure(config):
     cfg.limits.fn.max_params = MAX_PARAMS.get(config.limits, 2)
     _env['words'] = sorted(R.INITIAL_WORDS)
     _orient[0] = config.orient
-    _env['config'] = config.key()
+    _env['config'] = config.env_key()
 
 
 def cli_args():
@@ -236,7 +246,7 @@ def translate(translator, program):
 
 
 def run_execution(config, policy, dev=None, stages=('gen', 'erase', 'overwrite'), n_erasures=1,
-                  horizon=20000, keep_pickles=True, hooks=None, word_offset=None):
+                  horizon=20000, keep_pickles=True, hooks=None, word_offset=None, erasure_budget=None):
     """Run the pipeline once.  Never raises for failures of /repo code: they are recorded in
     Exec.error = (stage, exception type, message, innermost /repo frame)."""
     configure(config)
@@ -270,9 +280,13 @@ def run_execution(config, policy, dev=None, stages=('gen', 'erase', 'overwrite')
         translator = new_translator(config.lang)
         if hooks and 'before_gen' in hooks:
             hooks['before_gen'](x)
-        gen = Generator(language=config.lang, options=args.options['Generator'])
-        x.extra['generator'] = gen
-        P = gen.generate()
+        if config.family_index() is not None:
+            from mc import progfam
+            P = progfam.build(config.lang, config.family_index())
+        else:
+            gen = Generator(language=config.lang, options=args.options['Generator'])
+            x.extra['generator'] = gen
+            P = gen.generate()
         x.P0 = P
         if keep_pickles:
             x.P0_pickle = pickle.dumps(P)
@@ -286,7 +300,10 @@ def run_execution(config, policy, dev=None, stages=('gen', 'erase', 'overwrite')
             for k in range(n_erasures):
                 stage = 'erase%d' % k
                 cs.mark(stage)
-                tr = TypeErasure(P, config.lang, None, args.options['TypeErasure'])
+                er_opts = args.options['TypeErasure']
+                if erasure_budget is not None:      # the transformation's own option (default 500000)
+                    er_opts = dict(er_opts, max_combinations=erasure_budget)
+                tr = TypeErasure(P, config.lang, None, er_opts)
                 tr.transform()
                 P = tr.result()
                 flags.append(bool(tr.is_transformed))
